@@ -395,6 +395,9 @@ func typedMore(dir string, seed int64, tier string, repU *Report, wU *CaseWriter
 		// ---------------- C11: schema-less decoding is lossless ----------------
 		adesc := fmt.Sprintf("any: source=%v stream=[%s]", s, truncate(descTokens(ts), 400))
 		x, eA := anyOracle(repU, ts, adesc, inSchemalessDomain(ts))
+		if utapsW != nil && i%2 == 0 {
+			utapsCase(utapsW.report, anyType, ts, false, adesc)
+		}
 		if len(ts) < 200 {
 			av := reflect.ValueOf(&x).Elem()
 			wU.add(fmt.Sprintf("UnmarshalCase %s %s TAny (GAny None) %s %s %s", coqOpts(false, false, false), reg, coqTokens(ts), floatTable(ts), uobs(av, eA)), adesc, len(ts) >= 2)
